@@ -27,7 +27,7 @@ def valid_value(rng, p, env, name=None):
     if cls is P.BooleanParameter:
         return rng.choice([True, False])
     if cls is P.PathParameter:
-        return env["in"] if p.must_exist else "out_%s.csv" % rng.randrange(1000)
+        return env["in"] if p.must_exist else rng.choice(["out_%s.csv", "newdir_%s/out.csv"]) % rng.randrange(1000)
     if cls is P.ResultParameter:
         if p.is_fuzzy is True:
             return Name("Fz")
@@ -129,7 +129,8 @@ def eems2_faults(ctx, model, tmp, env, classes):
             c2 = v2[:j + 1] + [bad] + v2[j + 1:]
             err = "DuplicateResult"
         else:
-            bad = (None, "NOSUCHCOMMAND", [("InFieldName", Name(names[0])), ("NewFieldName", Name("Zz"))])
+            # unknown legacy name, or one that differs from a legacy / MPilot name only in case
+            bad = (None, rng.choice(["NOSUCHCOMMAND", "Not", "cvttofuzzy", "sUM", "copy", "Union"]), [("InFieldName", Name(names[0])), ("NewFieldName", Name("Zz"))])
             c2 = v2[:j + 1] + [bad] + v2[j + 1:]
             err = "CommandDoesNotExist"
         sc = Scenario(c2, wd=tmp, libs=LIBS)
@@ -152,8 +153,17 @@ def eems2_faults(ctx, model, tmp, env, classes):
             ctx.fail("ill-formed EEMS 2.0 model (%s): rejected only after executing %r" % (kind, res["log"]), sc.describe())
 
 
+def tree(root):
+    out = []
+    for d, dirs, files in os.walk(root):
+        out += [os.path.relpath(os.path.join(d, x), root) for x in dirs + files]
+    return sorted(out)
+
+
 def run(ctx):
     ctx.check_proofs(["MPilot.Props.C12"])
+    from .. import eems
+    eems.arrays_lib()       # commands of a library no program here asks for are registered in the process
     model = common.Model()
     rng = ctx.rng
     tmp = common.tmpdir("mpv_c12_")
@@ -204,9 +214,11 @@ def run(ctx):
         pos = rng.randrange(len(cmds))
         kind = rng.choice(["unknown-command", "duplicate-result", "after-effect"])
         if kind == "unknown-command":
-            c2 = list(cmds); c2[pos] = (c2[pos][0], "NoSuchCommand", c2[pos][2])
-            sc = Scenario(c2, wd=tmp, libs=LIBS)
-            scs.append((sc, ("CommandDoesNotExist", sc.lines[pos][0]), kind))
+            # a name that exists nowhere, one that only differs in case, or a command that exists in a library this program did not ask for
+            for bad_name in ["NoSuchCommand", "sum", "COPY", "Fuzzynot", "HeldData", "HeldFuzzy"]:
+                c2 = list(cmds); c2[pos] = (c2[pos][0], bad_name, c2[pos][2])
+                sc = Scenario(c2, wd=tmp, libs=LIBS)
+                scs.append((sc, ("CommandDoesNotExist", sc.lines[pos][0]), kind))
         elif kind == "duplicate-result":
             c2 = list(cmds); c2.insert(pos + 1, (cmds[rng.randrange(pos + 1)][0], "N", []))
             sc = Scenario(c2, wd=tmp, libs=LIBS)
@@ -248,7 +260,11 @@ def run(ctx):
     lines = [sc.protocol(classes) for sc, _, _ in scs]
     answers = model.ask(lines)
     for (sc, expect, tag), ans in zip(scs, answers):
+        before_tree = tree(tmp)
         res = progrun.run_impl(sc)
+        if expect is not None and expect != "pairing" and tree(tmp) != before_tree:
+            ctx.fail("ill-formed model (%s): files or folders appeared although the model was rejected: %r" % (
+                tag, sorted(set(tree(tmp)) - set(before_tree))[:5]), sc.describe())
         ctx.case(sc.source, sample={"kind": tag, "source": sc.source[-400:], "impl": progrun.impl_text(res)[:160], "model": ans[:160]})
         ctx.count("kind:" + tag.split(":")[0])
         d = progrun.compare(res, ans)
